@@ -27,6 +27,10 @@ func (e *Engine) VerifyFunction(fn *ssa.Function, safe bool) (res *FnResult) {
 }
 
 func (e *Engine) VerifyFunctionFor(fn *ssa.Function, safe bool, prop string) (res *FnResult) {
+	return e.verifyWith(fn, safe, prop, 0)
+}
+
+func (e *Engine) verifyWith(fn *ssa.Function, safe bool, prop string, maxDepth int) (res *FnResult) {
 	res = &FnResult{Fn: fnName(fn)}
 	defer func() {
 		if r := recover(); r != nil {
@@ -43,6 +47,14 @@ func (e *Engine) VerifyFunctionFor(fn *ssa.Function, safe bool, prop string) (re
 	vc := NewVC(e, fn)
 	vc.safe = safe
 	vc.prop = prop
+	if maxDepth > 0 {
+		vc.maxDepth = maxDepth
+	}
+	if maxDepth < 0 {
+		// sweep mode: callees are inlined one level for their effects, safety obligations only for the function itself
+		vc.maxDepth = 1
+		vc.safeTopOnly = true
+	}
 	res.VC = vc
 	c := e.contracts[fnName(fn)]
 	if c != nil && c.SafeOn {
@@ -221,16 +233,23 @@ func (e *Engine) VerifyFunctionFor(fn *ssa.Function, safe bool, prop string) (re
 				if len(e.universe) == 0 {
 					extra = append(extra, "<all: dynamic call without a frame>")
 				}
-				for _, u := range e.uncovered(actual.Except) {
-					// a dynamic callee may modify every map under this prefix: all of them must be declared
+				for _, u := range e.universe {
 					if !strings.HasPrefix(u, "F_") {
-						extra = append(extra, "<dynamic callee may modify "+u+"*>")
-						continue
-					}
-					for _, fm := range e.allFieldMaps() {
-						if strings.HasPrefix(fm, u) && !declared.Maps[fm] {
-							extra = append(extra, fm+"(dynamic callee)")
+						covered := false
+						for _, pp := range actual.Except {
+							if pp == "*" || strings.HasPrefix(u, pp) {
+								covered = true
+							}
 						}
+						if !covered {
+							extra = append(extra, "<dynamic callee may modify "+u+"*>")
+						}
+					}
+				}
+				// a dynamic callee may modify every field map it does not promise to preserve: those must be declared
+				for _, fm := range e.allFieldMaps() {
+					if e.inUniverse(fm) && !matchPreserve(actual.Except, fm) && !declared.Maps[fm] {
+						extra = append(extra, fm+"(dynamic callee)")
 					}
 				}
 			}
@@ -323,7 +342,9 @@ func Discharge(obls []*Obligation, timeoutMs int, workers int) {
 		}
 		script := o.VC.script(o, true)
 		var r SolverResult
-		if o.Kind == "cover" && strings.Contains(o.Name, "/cover/path:") {
+		if o.Kind == "safe" && o.VC.safeTopOnly {
+			r = runSolver(context.Background(), solvers[0], script, 2000)
+		} else if o.Kind == "cover" && strings.Contains(o.Name, "/cover/path:") {
 			// only a quick refutation matters here: unsat means the path assumptions are contradictory
 			r = runSolver(context.Background(), solvers[0], script, 1500)
 		} else {
